@@ -10,15 +10,16 @@ RULE = ("random clusters of 1-3 brokers x 1-3 topics x 1-4 partitions with rando
         "(M, M+1, M+1..40, 2M, 3M+5, 1 MiB) so that replies are cut by max_bytes inside entries; reply listing order as requested / "
         "reversed / seeded shuffle; consumers from earliest over all or some topics (or explicit partition subsets); histories of 1-12 ops "
         "over poll, seek to an offset inside the log (existing offsets, gap offsets, inside a wrapper, log end), poll with an injected "
-        "partition error code, poll with an I/O failure (write refused on the k-th request, connect refused with idle-timeout 0, read "
-        "failure), followed by as many clean polls as the largest partition needs; two focused families: 'fill' (>= 2 partitions of one "
+        "partition error code, poll with an I/O failure (reply not delivered / connect refused with idle-timeout 0, write of the last "
+        "request refused), followed by as many clean polls as the largest partition needs; two focused families: 'fill' (>= 2 partitions of one "
         "topic on one broker with different fill levels, so that an empty partition is listed before a non-empty one) and 'errlast' (error "
         "injected into one of several non-empty partitions of one broker); non-trivial = messages were delivered by at least two "
         "successful polls or by a successful poll after a failed one")
 ASSUMPTIONS = ["the reference broker (tools/cluster.py) serves the raw log bytes from the batch containing the requested offset, cut at max_bytes",
-               "read failures that leave reply bytes unread on a connection the client keeps using are outside this property's scope "
-               "(connection reuse after a read error is the subject of the network properties); only the crash-freedom and the "
-               "no-duplicate / no-mislabel clauses are checked after such an event"]
+               "I/O failures are generated in the forms whose wire effect the case determines: a reply that is not delivered (timeout / end of "
+               "stream) to consumers that reconnect for every call (idle timeout 0), a refused connect, a refused write of the last request; "
+               "a read failure on a connection the client keeps using leaves the reply unread and is generated as the separate family "
+               "'latereply' whose failures carry the class C01-late-reply"]
 EXHAUSTIVE = False
 
 CODES = [1, 2, 3, 5, 6, 7, 9, 10, 14, 16, 29, 35, -1, 36, 127]
